@@ -24,7 +24,7 @@ NT_FLOOR = 0.1
 
 @st.composite
 def plan_st(draw, tier):
-    cfg = draw(gen.config_st(arm_kinds=("int", "str"), max_arms=4, with_binarizer=True, scale_ok=True,
+    cfg = draw(gen.config_st(arm_kinds=("int", "str", "float", "mix"), max_arms=4, with_binarizer=True, scale_ok=True,
                              n_jobs_choices=(1, 1, 1, 1, 1, 2), defaults_ok=True))
     h = gen.History(draw, cfg, max_rows=8, query_rows=(1, 2, 3, 6))
     h.fit() if draw(st.integers(0, 3)) else h.partial_fit()
